@@ -229,6 +229,7 @@ template <class G> int runOne(Family fam, bool directed, bool labelled, const st
 
 int main(int argc, char **argv) {
     Args args(argc, argv);
+    (void)clock_();
     installWatchdog(60);
     if (args.has("deadline")) clock_().deadlineS = (double)args.getInt("deadline", 100000);
     std::string config = args.get("config", "");
